@@ -218,7 +218,7 @@ def work(spec):
     # differential validation: replay the model of some completed paths on the native g++ build
     r['diff'] = {'runs': 0, 'mismatches': []}
     if spec.get('diff') and r['traces'] and r['verdict'] != 'fail':
-        exe, d = fe.native(spec['harness'], spec['inst'], NATIVE_FLAGS['rel' if spec['flavour'] in ('rel', 'san') else 'dbg'],
+        exe, d = fe.native(spec['harness'], spec['inst'], tuple(NATIVE_FLAGS['rel' if spec['flavour'] in ('rel', 'san') else 'dbg']) + tuple(spec.get('extra', ())),
                            spec.get('defs', ()), tag='d')
         if exe is None:
             r['inconclusive'].append('native build for the differential run failed: ' + first_error(d))
@@ -342,7 +342,7 @@ def replay_failure(fe, res, f, outdir):
     dbgflav = spec['flavour'] in ('dbg', 'dsan')
     tries = []
     if kind == 'PRECISION-LOSS':
-        exe, d = fe.native(spec['harness'], spec['inst'], NATIVE_FLAGS['rel'], spec.get('defs', ()), tag='rrel')
+        exe, d = fe.native(spec['harness'], spec['inst'], tuple(NATIVE_FLAGS['rel']) + tuple(spec.get('extra', ())), spec.get('defs', ()), tag='rrel')
         if exe is None:
             return False, rp, 'native build failed: ' + first_error(d)
         rc, out, err = run_native(exe, rp)
@@ -363,7 +363,7 @@ def replay_failure(fe, res, f, outdir):
     if kind == 'BUILD-DIVERGENCE':
         outs = []
         for flav in ('rel', 'dbg'):
-            exe, d = fe.native(spec['harness'], spec['inst'], NATIVE_FLAGS[flav], spec.get('defs', ()), tag='r' + flav)
+            exe, d = fe.native(spec['harness'], spec['inst'], tuple(NATIVE_FLAGS[flav]) + tuple(spec.get('extra', ())), spec.get('defs', ()), tag='r' + flav)
             if exe is None:
                 return False, rp, 'native build failed: ' + first_error(d)
             rc, out, err = run_native(exe, rp)
@@ -372,7 +372,7 @@ def replay_failure(fe, res, f, outdir):
         return differ, rp, f'rel: rc={outs[0][0]} {outs[0][1][-200:]!r} | dbg: rc={outs[1][0]} {outs[1][1][-200:]!r}'
     detail = ''
     for flav, vg in tries:
-        exe, d = fe.native(spec['harness'], spec['inst'], NATIVE_FLAGS[flav], spec.get('defs', ()), tag='r' + flav)
+        exe, d = fe.native(spec['harness'], spec['inst'], tuple(NATIVE_FLAGS[flav]) + tuple(spec.get('extra', ())), spec.get('defs', ()), tag='r' + flav)
         if exe is None:
             detail = 'native build failed: ' + first_error(d)
             continue
